@@ -9,6 +9,7 @@ import math
 from mc import lib, pmodel, space
 from checks import c01
 
+CASE_TIMEOUT_S = 900      # wall-clock horizon per state (states of this check bundle many sub-states; generous for loaded machines)
 PROPERTY = 'C19'
 RULE = ('deviation-bounded product (<=3 of 10 slots) over abstract peptides on the residue strings K, KK, PEK, KPK, PEKK '
         '(quick) + PEKTK, AAKA (thorough); per state the four expansions for every size/repeat in 1..n, None and n+1, '
